@@ -49,8 +49,10 @@ def live_snapshot(name):
     return _BASE[key]
 
 
-def check_file(live, lines, eol, last_terminated):
-    """Returns (rewritten_any, violation message | None)."""
+def check_file(live, lines, eol, last_terminated, busy=False):
+    """Returns (rewritten_any, violation message | None).  busy: the live print goes on between the creation of
+    the processor and its first line (a file uploaded while printing): the processor filters from the state it was
+    created from."""
     from ..world import World
     W = World.restore(live_snapshot(live), CFG)
     T = World.restore(live_snapshot(live), CFG)
@@ -59,6 +61,16 @@ def check_file(live, lines, eol, last_terminated):
         sp = H.StreamProcessor(io.BytesIO(b""), W.plugin.gcodeHandlers)
     except Exception as e:   # noqa
         return False, "C20 StreamProcessor could not be created: %s: %s" % (type(e).__name__, e)
+    if busy:
+        if W.impl_key() != k0:
+            return False, "C20 creating a StreamProcessor modified the live plugin's state (live state %s)" % live
+        for c in ("G91", "G1 X1 Y1 Z0.3", "@ExcludeRegion disable", "G20"):
+            if c.startswith("@"):
+                W.plugin.handleAtCommandQueuing(W.comm, "queuing", c[1:].split()[0], c.split(None, 1)[1], tags=set())
+            else:
+                g, sc = H.gcode_and_subcode_for_cmd(c)
+                W.plugin.handleGcodeQueuing(W.comm, "queuing", c, None, g, sc, tags=set())
+        k0 = W.impl_key()
     touched = False
     file_eol = None
     for idx, body in enumerate(lines):
@@ -132,15 +144,20 @@ def _work(arg):
             for lt in (True, False):
                 out["files"] += 1
                 out["lines"] += n
-                touched, msg = check_file(live, seq, eol, lt)
-                if touched:
-                    out["nt"] += 1
-                if msg:
-                    sig = " ".join(msg.split()[:4])
-                    if sig not in sigs and len(out["viol"]) < 3:
-                        sigs.add(sig)
-                        out["viol"].append(dict(msg=msg, sig=sig, input=dict(live=live, lines=list(seq), eol=eol,
-                                                                                 last_terminated=lt)))
+                for busy in ((False, True) if (eol == "\n" and lt) else (False,)):
+                    if busy:
+                        out["files"] += 1
+                        out["lines"] += n
+                        out["busy"] = out.get("busy", 0) + 1
+                    touched, msg = check_file(live, seq, eol, lt, busy)
+                    if touched:
+                        out["nt"] += 1
+                    if msg:
+                        sig = " ".join(msg.split()[:4])
+                        if sig not in sigs and len(out["viol"]) < 3:
+                            sigs.add(sig)
+                            out["viol"].append(dict(msg=msg, sig=sig, input=dict(live=live, lines=list(seq), eol=eol,
+                                                                                     last_terminated=lt, busy=busy)))
     return out
 
 
@@ -156,11 +173,11 @@ def enumerate_inputs(ctx):
         tasks += [("in-episode", first, 3) for first in LINES[:6]]
     else:
         tasks += [("in-episode", first, 4) for first in LINES[:4]]
-    tot = dict(files=0, lines=0, nt=0)
+    tot = dict(files=0, lines=0, nt=0, busy=0)
     viol = []
     for r in engine.pmap(_FI, tasks):
         for k in tot:
-            tot[k] += r[k]
+            tot[k] += r.get(k, 0)
         viol.extend(r["viol"])
     seen, uniq = set(), []
     for v in sorted(viol, key=lambda v: (len(v["input"]["lines"]), repr(v["input"]))):
@@ -173,10 +190,11 @@ def enumerate_inputs(ctx):
                 samples=[dict(live="in-episode", eol="\r\n", lines=["G28 X Y ; home", "G1 X70 Y65 E1"]),
                          dict(live="recovery-owed", eol="\n", lines=["N3 G1 X10 Y10*7 ; go", "@ExcludeRegion disable x"])],
                 parts=[dict(name="c20-files", line_forms=len(LINES), live_states=len(LIVE), max_lines=N,
-                            files=tot["files"], line_steps=tot["lines"], files_with_rewrites=tot["nt"])],
+                            files=tot["files"], line_steps=tot["lines"], files_with_rewrites=tot["nt"],
+                            files_filtered_while_the_live_print_went_on=tot["busy"])],
                 violations=uniq)
 
 
 def replay_input(payload):
     i = payload["input"]
-    return check_file(i["live"], tuple(i["lines"]), i["eol"], i["last_terminated"])[1]
+    return check_file(i["live"], tuple(i["lines"]), i["eol"], i["last_terminated"], i.get("busy", False))[1]
